@@ -1,54 +1,142 @@
-"""Robust evaluation of case files in Coq for the C08 / C09 harnesses (wraps common.coq_bad_matrix).
+"""Robust evaluation of case files in Coq for the C08 / C09 harnesses.
+
+Cases come in GROUPS (one per implementation job) that share definitions (universe, conversion table): a shard holds
+whole groups and only THEIR definitions, so a shard stays small however many jobs a tier runs.
 
 A shard that fails is not a verdict: other builders may be rebuilding shared .vo files at that moment ("inconsistent
-assumptions"), a loaded machine may hit the coqc time limit, or a generated term may really be ill-typed.  So: smaller
-shards; on failure rebuild the imports once and evaluate again, bisecting down to the single case that fails; a single
-case whose coqc run prints an error text is `rejected` (a harness/export defect: reported as a failure, with the text),
-a single case that dies without output (timeout / killed) is retried with a longer limit and otherwise counted as
-`unevaluated` (reported in the evidence; a broken obligation only when more than 1 % of the cases are lost)."""
+assumptions"), a loaded machine may hit the coqc time limit, or a generated term may really be ill-typed.  So: on failure
+rebuild the imports once and evaluate the failed shards again, bisecting down to the single case that fails; a single
+case whose coqc run prints an error text is `rejected` (a harness/export defect: reported as a failure, with the text);
+a single case that dies without output (timeout / killed) after the retries is `unevaluated` (listed in the evidence;
+a broken obligation only when more than 1 % of the cases are lost)."""
+import concurrent.futures as cf
+import os
+import re
+
 import common
 from common import BuildError
 
+_BAD = """Fixpoint bad_idx {A} (f : A -> bool) (i : nat) (l : list A) : list nat :=
+  match l with [] => [] | x :: r => if f x then bad_idx f (S i) r else i :: bad_idx f (S i) r end."""
 
-def matrix(ck, tag, imports, defs, ctype, checks, cases, targets=(), shard_chars=150000, timeout=900):
-    stats = {"cases": len(cases), "retried": False, "rejected": 0, "unevaluated": 0}
-    try:
-        return common.coq_bad_matrix(tag, imports, defs, ctype, checks, cases, shard_chars=shard_chars, timeout=timeout), stats
-    except BuildError as e:
-        stats["retried"] = True
-        stats["first_error"] = {"target": e.target, "log": (e.log or "")[-600:] or "(no output: coqc timed out or was killed)"}
-    ok, log = common.make(list(targets))
-    if not ok:
-        raise BuildError("make " + " ".join(targets), log[-3000:])
-    out = {k: [] for k in checks}
-    lost = []
 
-    def go(lo, hi):
-        if lo >= hi:
-            return
+def _run_shard(tag, k, imports, defs, ctype, checks, cases, timeout):
+    """cases: list of (global index, term).  Returns (ok, {name: [global idx]}, log)"""
+    names = list(checks)
+    path = os.path.join(common.CORR, f"cases_{tag}_{os.getpid()}_g{k}.v")
+    body = [imports, "From Coq Require Import NArith ZArith List Bool.", "Import ListNotations.", defs,
+            f"Definition the_cases : list ({ctype}) := [", ";\n".join(t for _, t in cases), "].", _BAD]
+    for j, nm in enumerate(names):
+        body.append(f"Definition the_check_{j} : ({ctype}) -> bool := {checks[nm]}.")
+    body.append("Eval vm_compute in (" + ", ".join(f"bad_idx the_check_{j} 0 the_cases" for j in range(len(names))) + ", tt).")
+    with open(path, "w") as f:
+        f.write("\n".join(body) + "\n")
+    rc, o, err = common._coqc(path, timeout)
+    base = path[:-2]
+    for ext in (".v", ".vo", ".vok", ".vos", ".glob"):
         try:
-            r = common.coq_bad_matrix(tag + "_r", imports, defs, ctype, checks, cases[lo:hi], shard_chars=max(shard_chars // 2, 20000),
-                                      timeout=timeout * 2)
-            for k, v in r.items():
-                out[k] += [lo + i for i in v]
-        except BuildError as e:
-            if hi - lo == 1:
-                text = (e.log or "").strip()
-                lost.append((lo, "rejected" if "Error" in text else "unevaluated", text[-1500:]))
-            else:
-                mid = (lo + hi) // 2
-                go(lo, mid)
-                go(mid, hi)
+            os.remove(base + ext)
+        except FileNotFoundError:
+            pass
+    try:
+        os.remove(os.path.join(common.CORR, "." + os.path.basename(base) + ".aux"))
+    except FileNotFoundError:
+        pass
+    if rc != 0:
+        return False, None, (o + err).strip() or f"(no output, exit status {rc}: coqc timed out or was killed)"
+    lists = re.findall(r"\[([^\]]*)\]", o[o.index("="):] if "=" in o else o)
+    if len(lists) < len(names):
+        return False, None, "unparsable output: " + o[-500:]
+    out = {}
+    for nm, l in zip(names, lists):
+        out[nm] = [cases[int(x)][0] for x in re.findall(r"\d+", l)]
+    return True, out, ""
 
-    go(0, len(cases))
-    for i, kind, text in lost:
-        stats[kind] += 1
-        if kind == "rejected":
-            ck.failure("harness-term-rejected", f"Coq rejects the generated case {i} of {tag}: {text[-600:]}", {"case": cases[i][:4000], "log": text})
+
+def matrix_grouped(ck, tag, imports, common_defs, groups, ctype, checks, targets=(), shard_chars=250000, timeout=900):
+    """groups: list of (defs text of the group, [case terms]).  Returns ({check: [bad global indices]}, stats);
+    global index = position in the concatenation of the groups' cases."""
+    os.makedirs(common.CORR, exist_ok=True)
+    items = []          # (group defs, [(global idx, term)])
+    n = 0
+    for gdefs, terms in groups:
+        items.append((gdefs, [(n + i, t) for i, t in enumerate(terms)]))
+        n += len(terms)
+    stats = {"cases": n, "shards": 0, "retried_shards": 0, "rejected": 0, "unevaluated": 0}
+    shards, cur, size = [], [], 0
+    for gdefs, cs in items:
+        if not cs:
+            continue
+        gsize = len(gdefs) + sum(len(t) for _, t in cs)
+        if cur and size + gsize > shard_chars:
+            shards.append(cur)
+            cur, size = [], 0
+        cur.append((gdefs, cs))
+        size += gsize
+    if cur:
+        shards.append(cur)
+    stats["shards"] = len(shards)
+    out = {k: [] for k in checks}
+
+    def run(k, shard, tmo):
+        defs = common_defs + "\n" + "\n".join(g for g, _ in shard)
+        return _run_shard(tag, k, imports, defs, ctype, checks, [c for _, cs in shard for c in cs], tmo)
+
+    with cf.ThreadPoolExecutor(max_workers=12) as ex:
+        results = list(ex.map(lambda ks: run(ks[0], ks[1], timeout), enumerate(shards)))
+    failed = []
+    for shard, (ok, r, log) in zip(shards, results):
+        if ok:
+            for k, v in r.items():
+                out[k] += v
         else:
-            ck.notes.append(f"{tag}: case {i} could not be evaluated (coqc timed out or was killed, no output)")
-    if stats["unevaluated"] * 100 > max(len(cases), 1):
-        ck.broken_obligation(f"{tag}: {stats['unevaluated']} of {len(cases)} cases unevaluated", "coqc timed out or was killed on single cases")
+            failed.append((shard, log))
+    if failed:
+        stats["retried_shards"] = len(failed)
+        stats["first_error"] = failed[0][1][-600:]
+        ok, log = common.make(list(targets))
+        if not ok:
+            raise BuildError("make " + " ".join(targets), log[-3000:])
+        lost = []
+        counter = [len(shards)]
+
+        def go(shard):
+            counter[0] += 1
+            ok, r, log = run(counter[0], shard, timeout * 2)
+            if ok:
+                for k, v in r.items():
+                    out[k] += v
+                return
+            ncases = sum(len(cs) for _, cs in shard)
+            if ncases == 1:
+                idx = [c for _, cs in shard for c in cs][0][0]
+                lost.append((idx, "rejected" if "Error" in log else "unevaluated", log[-1500:], [c for _, cs in shard for c in cs][0][1]))
+            elif len(shard) > 1:
+                mid = len(shard) // 2
+                go(shard[:mid])
+                go(shard[mid:])
+            else:
+                gdefs, cs = shard[0]
+                mid = len(cs) // 2
+                go([(gdefs, cs[:mid])])
+                go([(gdefs, cs[mid:])])
+
+        for shard, _ in failed:          # sequentially: the machine is probably loaded
+            go(shard)
+        for idx, kind, text, term in lost:
+            stats[kind] += 1
+            if kind == "rejected":
+                ck.failure("harness-term-rejected", f"Coq rejects the generated case {idx} of {tag}: {text[-600:]}", {"case": term[:4000], "log": text})
+            else:
+                ck.notes.append(f"{tag}: case {idx} could not be evaluated: {text[-200:]}")
+        if stats["unevaluated"] * 100 > max(n, 1):
+            ck.broken_obligation(f"{tag}: {stats['unevaluated']} of {n} cases unevaluated", "coqc timed out or was killed on single cases")
     for k in out:
         out[k].sort()
     return out, stats
+
+
+def matrix(ck, tag, imports, defs, ctype, checks, cases, targets=(), shard_chars=150000, timeout=900):
+    """ungrouped form: every case is its own group, `defs` common to all"""
+    return matrix_grouped(ck, tag, imports, defs, [("", [c]) for c in cases], ctype, checks, targets=targets,
+                          shard_chars=shard_chars, timeout=timeout)
